@@ -15,9 +15,12 @@ from .c18 import CountingSequence
 RULE = (
     "all histories of the bound length (invariants after every step) over the actions {attach_payload(node, P1|P2) for every node kind (leaf, "
     "unary operation relation, chain relation, materialization, transfer), iteration execute(T_i), "
-    "Processor.process(T_i)} on four trees T_1..T_4 (the materialization, a projection, a self-chain and a sort of it) that share one materialization node, in three scenarios "
+    "Processor.process(T_i)} on four trees T_1..T_4 (the materialization, a projection, a self-chain and a sort of it) that share one materialization node, in several scenarios "
     "(iteration-only; SQL source transferred into the iteration engine below the materialization; materialization "
-    "inside the SQL engine below a transfer; SQL materialization directly above a transfer from the iteration engine); leaf payloads are instrumented; state invariants after every action: a "
+    "inside the SQL engine below a transfer; SQL materialization directly above a transfer from the iteration engine; "
+    "a materialization added on top of an ALREADY PROCESSED tree whose transfer holds a payload, in the iteration and in the SQL engine); "
+    "the Processor's transfer hook returns a cacheable payload only when asked to (materialize_as), otherwise one that "
+    "re-evaluates its source on every read; leaf payloads are instrumented; state invariants after every action: a "
     "payload slot that has been non-None keeps the identical object, attaching to a filled marker or to any non-marker "
     "raises TypeError and changes nothing, the shared materialization's upstream is evaluated at most once over the "
     "whole history (leaf iteration starts / hook calls), and every evaluation returns the reference rows; non-trivial = "
@@ -81,6 +84,18 @@ class Scenario:
             self.ctx = Ctx(w)
             base = self.ctx.build(("X", SEL, ("xfer", "e1")))
             self.transfer = base
+        elif name == "iteration-over-processed-transfer":
+            # history prefix: the tree below the materialization was processed EARLIER and the caller keeps
+            # building on the returned tree, whose transfer holds a (lazy, non-cacheable) payload
+            w = World(engines=(("e1", "it"), ("e2", "it")), leaves=(LeafSpec("L", "e1", ABC, ROWS),))
+            self.ctx = Ctx(w, payload_factory)
+            base = RealProcessor(self.ctx, lazy_transfers=True).process(self.ctx.build(("L", SEL, ("xfer", "e2"))))
+            self.transfer = base
+        elif name == "sql-materialization-over-processed-transfer":
+            w = World(engines=(("s", "sql"), ("e1", "it")), leaves=(LeafSpec("L", "e1", ABC, ROWS),))
+            self.ctx = Ctx(w, payload_factory)
+            base = RealProcessor(self.ctx, lazy_transfers=True).process(self.ctx.build(("L", SEL, ("xfer", "s"))))
+            self.transfer = None
         elif name == "sql-materialization-over-transfer":
             w = World(engines=(("s", "sql"), ("e1", "it")), leaves=(LeafSpec("L", "e1", ABC, ROWS),))
             self.ctx = Ctx(w, payload_factory)
@@ -93,7 +108,7 @@ class Scenario:
             self.transfer = None
         self.m = self.ctx.apply(base, ("mat", "shared"))
         ctx = self.ctx
-        if name in ("sql-materialization", "sql-materialization-over-transfer"):
+        if name in ("sql-materialization", "sql-materialization-over-transfer", "sql-materialization-over-processed-transfer"):
             top = ctx.apply(self.m, ("xfer", "e1"))
             self.transfer = top
             self.mat_node = next(n for n in walk.walk(self.m) if isinstance(n, Materialization))
@@ -114,7 +129,7 @@ class Scenario:
             sorted(sorted(em, key=lambda r: -r["b"]), key=lambda r: r["c"]),
         ]
         # iteration-engine trees have a determined row order: compare as lists there
-        self.ordered = name in VARIANTS
+        self.ordered = name in VARIANTS or name == "iteration-over-processed-transfer"
         leaf = ctx.leaves["L" if "L" in ctx.leaves else "X"]
         self.nodes = {
             "leaf": leaf,
@@ -195,7 +210,7 @@ def run_history(scn_name, hist):
                 if kind == "execute":
                     got = [{t.qualified_name: v for t, v in row.items()} for row in tree.engine.execute(tree)]
                 else:
-                    proc = RealProcessor(ctx)
+                    proc = RealProcessor(ctx, lazy_transfers=True)
                     out = proc.process(tree)
                     for hk, src, trivial, name in proc.log:
                         if name == "shared" or (hk == "materialize"):
@@ -271,7 +286,13 @@ def _fmt(h):
     return f"attach({x},{y})" if kind == "attach" else f"{kind}(T{x + 1})"
 
 
-SCENARIOS = tuple(VARIANTS) + ("sql-source", "sql-materialization", "sql-materialization-over-transfer")
+SCENARIOS = tuple(VARIANTS) + (
+    "sql-source",
+    "sql-materialization",
+    "sql-materialization-over-transfer",
+    "iteration-over-processed-transfer",
+    "sql-materialization-over-processed-transfer",
+)
 
 
 def run(tier, seed):
